@@ -66,4 +66,83 @@ PROPS = {
                         "escalation rule: an excursion beyond 6 SE is a violation only if >=2 of 9 seeds exceed 5 SE (false-alarm probability ~1e-10)",
                         "a pristine process image is obtained by fork() of a process that never called libphysica"],
     },
+    "C18": {
+        "engine": "samplers",
+        "batches": {
+            "quick": [{"config": "clang-O2", "runs": 400}, {"config": "gcc-O1-asan-ubsan", "runs": 120, "kv": {"law_frac": "0.03"}}],
+            "thorough": [{"config": "clang-O2", "runs": 4000}, {"config": "gcc-O1-asan-ubsan", "runs": 500, "kv": {"law_frac": "0.03"}}],
+        },
+        "rule": "Two kinds of run on one caller-owned std::mt19937. History runs: 1-4 clients, each bound to a sampler family, interleaved "
+                "by the seeded scheduler with re-seeding (0, 1, 5489, 2^32-1, random) and discard(1..1e6) faults; after every sampler op "
+                "the same op is executed again on a clone of the pre-state and must give bit-identical outputs and an equal state; "
+                "support/domain and exact sample counts ((sample, thinning, burn_in) from the grid {0,1,2,3,7,50,200}x{1,2,3,10,200}x"
+                "{0,1,5,200}) are checked; vector Poisson must equal the scalar call sequence; no entropy may come from anywhere but the "
+                "generator. Law runs (about 12%): a pool of 2e4..1e6 draws of one sampler collected while an intruder sampler is "
+                "called on the same generator every 1..50 draws, tested with the DKW inequality at level 1e-12 (plus Poisson moment "
+                "bands; Metropolis from independent 200-step chains, and a loose moment check on long thinned chains). "
+                "Non-trivial: history run with >=3 different sampler kinds and >=1 op starting from a used generator state, or law "
+                "run with intruder calls. Distinct = distinct plan text hash among non-trivial runs.",
+        "states_measure": "distinct tuples (sampler kind, previous sampler kind on the generator, generator state fresh/used, parameter bucket) "
+                          "plus (pooled sampler kind, family, intruder kind) for law pools",
+        "components": {"real": ["libphysica::Sample_Uniform/Gauss/Poisson, Inverse_Transform_Sampling, Rejection_Sampling(_2D), Sample_Metropolis(_2D)", "libphysica::Find_Root, Quantile_Gauss, Inv_Erf (reached through the samplers)", "std::mt19937, std::uniform_real_distribution"] + REAL_ALL,
+                       "stub": ["target densities and CDFs (harness callbacks with closed-form CDFs)", "std::random_device / clock / rand symbols (link-time wrap; any draw is a violation)"]},
+        "assumptions": ["DKW inequality at level 1e-12 per test for i.i.d. draws; Metropolis pools are made i.i.d. by taking one sample per independent 200-step chain (total-variation slack 1e-6 added)",
+                        "model slack for the samplers' own numerics: Sample_Gauss 6e-5 (Inv_Erf root tolerance 1e-4), inverse transform 1e-9, Metropolis via Sample_Gauss 1e-4",
+                        "only gross distributional errors are refutable (D >~ 0.004 at n=1e6, ~0.012 at n=1e5)"],
+    },
+    "C20": {
+        "engine": "fileio",
+        "states_per_config": True,
+        "batches": {
+            "quick": [{"config": "gcc-O1-asan-ubsan", "runs": 500, "kv": {"faults": "A"}},
+                      {"config": "gcc-O1-asan-ubsan", "runs": 700, "kv": {"faults": "B"}},
+                      {"config": "clang-O0", "runs": 500, "kv": {"faults": "B"}},
+                      {"config": "clang-O0", "runs": 300, "kv": {"faults": "C"}}],
+            "thorough": [{"config": "gcc-O0", "runs": 3000, "kv": {"faults": "A"}},
+                         {"config": "gcc-O2", "runs": 4000, "kv": {"faults": "B"}},
+                         {"config": "clang-O0", "runs": 4000, "kv": {"faults": "B"}},
+                         {"config": "clang-O2", "runs": 3000, "kv": {"faults": "C"}},
+                         {"config": "gcc-O1-asan-ubsan", "runs": 3000, "kv": {"faults": "C"}},
+                         {"config": "clang-O1-asan-ubsan", "runs": 2000, "kv": {"faults": "B"}}],
+        },
+        "rule": "One run = one seeded plan of 4-45 operations on a store of up to 6 paths under /simfs/ (Export_List, Export_Table, both "
+                "Export_Function overloads with linear and logarithmic grids, Import_List, Import_Table, File_Exists, all In_Units "
+                "overloads with and without rounding, unit-constant identities), executed by real libphysica + libstdc++ iostreams on "
+                "the simulated file layer and compared op-by-op with a reference model (last exported shape/values/units/header per "
+                "path; untouched paths byte-identical). Fault configurations run as separate batches: A none; B legal perturbations "
+                "on every simulated descriptor (short write/writev, short read, EINTR at 5-40% per syscall) with the oracle unchanged; "
+                "C additionally hard faults (ENOSPC/EIO from the n-th write of an export, failed open for writing) after which only "
+                "the faulted path is indeterminate until the next fault-free export. Build-configuration swarm: the same simulation "
+                "is built with g++ and clang++ at -O0/-O1+sanitizers/-O2. Non-trivial: the run contains an export over a longer file, "
+                "a multi-line header, a table with >=2 columns and per-column units, and (B, C) a fault fired inside an export and "
+                "inside an import. Distinct = distinct plan text hash among non-trivial runs.",
+        "states_measure": "distinct tuples (build config, op kind, previous op on the same path, fault class fired {none, legal, hard}, header lines {0,1,>=2}, rows bucket, columns bucket)",
+        "components": {"real": ["libphysica::Export_List/Export_Table/Export_Function/Import_List/Import_Table/File_Exists/In_Units", "libphysica::natural_units constants (dynamic/static initialisation as the compiler chose)", "libstdc++ basic_filebuf / ofstream / ifstream / num_put / num_get", "glibc stdio FILE objects (fdopen on the simulated descriptor)"] + REAL_ALL,
+                       "stub": ["file system for paths under /simfs/ (one memfd per file; fopen64/fopen/fclose/read/write/writev/stat defined in the harness executable)", "tabulated function passed to Export_Function (harness callback a+b*x)"]},
+        "assumptions": ["values and units are generated so that value/unit and the value itself are normal doubles (text input cannot represent anything else)",
+                        "six significant digits: |v'-v| <= 5.0001e-6 |v|, and exact equality when value/unit prints exactly with six digits",
+                        "after a hard I/O fault C20 states nothing about the affected path: it is not judged until the next fault-free export; all other paths keep the exact oracle"],
+    },
+    "C06": {
+        "engine": "memo",
+        "batches": {
+            "quick": [{"config": "gcc-O1-asan-ubsan", "runs": 2000}],
+            "thorough": [{"config": "gcc-O1-asan-ubsan", "runs": 12000}, {"config": "clang-O2", "runs": 12000}],
+        },
+        "rule": "PARTIAL: only the history clause of C06 ('all n<=170 for Factorial in every call order; the memo table grows on demand') is "
+                "decided. One run = a pristine process image (memo table = {1}) in which 1-3 clients (ascending, descending, random, "
+                "'exactly one past the table end', binomials) issue Factorial(n<=170) and Binomial_Coefficient(n<=400,k) in "
+                "scheduler-chosen order. Every Factorial answer is compared with an 80-bit product-chain reference (n/2+1 ulp, exact "
+                "below 23!), with earlier answers of the same history (bit-identical), with the recurrence n!=n(n-1)! on library "
+                "outputs, and - for up to 9 flagged ops per run - bit for bit with the answer of a pristine process asked only that. "
+                "Binomials with n<=170 (which go through the memo) are checked against an 80-bit reference (16 ulp sanity "
+                "bound; their value accuracy is an input property not decided here), symmetry and Pascal's rule (8 ulp); n>170 is a no-memo control judged for purity only. About 2% of the runs "
+                "are an exhaustive sweep: each of the 171 'first call is Factorial(n)' histories in its own pristine process times three "
+                "follow-up patterns. Non-trivial: >=5 distinct arguments requested in the history, or an exhaustive sweep. "
+                "Distinct = distinct plan text hash among non-trivial runs.",
+        "states_measure": "distinct (n, request class {grows the table, repeated, answered from the table}) pairs",
+        "components": {"real": ["libphysica::Factorial, Binomial_Coefficient (and GammaLn behind n>170)"] + REAL_ALL, "stub": []},
+        "assumptions": ["the accuracy clauses of C06 for GammaLn/Gamma/GammaP/GammaQ/Inv_Gamma* are pure functions of their arguments and are NOT decided by this check",
+                        "a pristine process image is obtained by fork() of a process that never called libphysica"],
+    },
 }
